@@ -100,7 +100,7 @@ func handlePUSH(params x86genParams, ctx *CodeGenContext) ([]byte, error) {
 		}
 		code = append(code, 0xFF) // Append opcode after prefixes
 		code = append(code, modrmByte)
-		if sibByte != 0 {
+		if sibByte != 0 || hasSIBByte(modrmByte, memInfo) { // SIB の値が 0x00 でも SIB は存在する
 			code = append(code, sibByte)
 		}
 		code = append(code, dispBytes...)
@@ -230,7 +230,7 @@ func handlePOP(params x86genParams, ctx *CodeGenContext) ([]byte, error) {
 		}
 		code = append(code, 0x8F) // Append opcode after prefixes
 		code = append(code, modrmByte)
-		if sibByte != 0 {
+		if sibByte != 0 || hasSIBByte(modrmByte, memInfo) { // SIB の値が 0x00 でも SIB は存在する
 			code = append(code, sibByte)
 		}
 		code = append(code, dispBytes...)
